@@ -82,6 +82,48 @@ Proof.
   apply step_flips_reported; [apply inv_final|exact Hkd].
 Qed.
 
+(* A net change of usability over ANY further sequence of events (for instance the deletions that
+   the clean-up of an unwatched namespace performs, in whatever order the cache lists them) shows up in
+   the change list of at least one of the single steps: nothing may be dropped when the steps are
+   batched. *)
+Lemma net_flip_step (P : state -> bool) (more : list event) : forall st,
+  P st <> P (run_from fx st more) ->
+  exists pre ev post, more = pre ++ ev :: post /\
+    P (run_from fx st pre) <> P (fst (step fx (run_from fx st pre) ev)).
+Proof.
+  induction more as [|ev r IH]; intros st H; [exfalso; apply H; reflexivity|].
+  destruct (Bool.bool_dec (P st) (P (fst (step fx st ev)))) as [E|E].
+  - unfold run_from in H. cbn [fold_left] in H. fold (run_from fx (fst (step fx st ev)) r) in H.
+    rewrite E in H. destruct (IH _ H) as [pre [ev' [post [E1 E2]]]].
+    exists (ev :: pre), ev', post. split; [rewrite E1; reflexivity|]. exact E2.
+  - exists [], ev, r. split; [reflexivity|exact E].
+Qed.
+
+Lemma K1_from_app ob a b : K1_from ob (a ++ b) -> K1_from ob a.
+Proof.
+  revert ob. induction a as [|x a IH]; intros ob H; cbn in *; [exact I|].
+  destruct H as [H1 H2]. split; [exact H1|apply IH; exact H2].
+Qed.
+
+Lemma run_app en a b : run fx en (a ++ b) = run_from fx (run fx en a) b.
+Proof. unfold run, run_from. apply fold_left_app. Qed.
+
+Theorem net_flip_reported en evs more kd key :
+  K1_hist (evs ++ more) -> kd = KPolicy \/ kd = KLogConf \/ kd = KDosPR ->
+  usable (run fx en evs) kd key <> usable (run fx en (evs ++ more)) kd key ->
+  exists pre ev post, more = pre ++ ev :: post /\
+    let st := run fx en (evs ++ pre) in
+    In (chg (op_for (usable (fst (step fx st ev)) kd key)) kd key) (o_changes (snd (step fx st ev))).
+Proof.
+  intros HK Hkd Hflip. rewrite run_app in Hflip.
+  destruct (net_flip_step (fun st => usable st kd key) more _ Hflip) as [pre [ev [post [E1 E2]]]].
+  exists pre, ev, post. split; [exact E1|]. cbn zeta. rewrite run_app.
+  assert (HK' : K1_hist (evs ++ pre)).
+  { subst more. unfold K1_hist in *. rewrite app_assoc in HK. apply K1_from_app in HK. exact HK. }
+  pose proof (changes_reported en (evs ++ pre) ev kd key HK' Hkd) as R. cbn zeta in R.
+  rewrite run_app in R. destruct (R E2) as [R1 _]. exact R1.
+Qed.
+
 Lemma wf_run_sigs en evs : K1_hist evs -> wf (usersigs (waf (run fx en evs))).
 Proof.
   intros HK. rewrite (run_is_spec_state en evs HK). cbn. apply wf_mapk. apply (inv_sig _ (inv_final evs)).
